@@ -107,52 +107,3 @@ def c02_sparse_scale_computed_in_storage_dtype(fam, case, verdict):
     want = np.zeros(tuple(X["shape"]), dtype=prod.dtype)
     want[tuple(subs.T)] = prod
     return _same_values(impl["ok"], want, np.dtype(dt) == np.float32)
-
-
-@matcher
-def c02_ttsv_extent1_vector_returned_as_scalar(fam, case, verdict):
-    """tensor.ttsv(v, skip_dim=0) under the default version / version=2 on a tensor whose modes all have extent 1
-    returns the single entry as a Python float instead of a 1-d array of length 1 (`if len(y) == 1`).  Matches only:
-    family ttsv, skip_dim = 0, version absent or 2, every extent 1, an implementation result that is a scalar, and a
-    verdict about the result kind (the judge raises that one only after the VALUE was found equal to the definition)."""
-    if fam != "ttsv" or case is None or case.get("op") != "ttsv":
-        return False
-    if case.get("skip") != 0 or case.get("ver") not in ("none", "2"):
-        return False
-    if any(e != 1 for e in case["X"]["shape"]):
-        return False
-    impl = verdict.impl
-    if not (isinstance(impl, dict) and isinstance(impl.get("ok"), dict) and impl["ok"].get("kind") == "scalar"):
-        return False
-    return str(getattr(verdict, "what", "")).startswith("ttsv result kind: scalar")
-
-
-@matcher
-def c02_ttsv_default_computed_in_storage_dtype(fam, case, verdict):
-    """tensor.ttsv on its default code path (version absent or 2) runs `reshape(y, ...).dot(vector)` in the storage
-    type of data and vector.  Matches only: family dtypes, ttsv, version absent / 2, at least one mode multiplied, data
-    and vector stored in the same non-float64 type, and an implementation result that is exactly the code's loop
-    carried out by numpy in that type (wrap-around for integers, logical or / and for bool, single precision for
-    float32)."""
-    import numpy as np
-    if fam != "dtypes" or case is None or case.get("op") != "ttsv":
-        return False
-    if case.get("ver") not in ("none", "2"):
-        return False
-    A = _stored(case.get("X", {}))
-    if A is None or case.get("mdtype") != str(A.dtype):
-        return False
-    N, dnew = A.ndim, int(case.get("dnew", 0))
-    if dnew >= N or len(set(A.shape)) != 1:
-        return False
-    impl = verdict.impl
-    if not (isinstance(impl, dict) and "ok" in impl):
-        return False
-    sz = A.shape[0]
-    v = np.array([int(x) for x in case["x"]], dtype=object).astype(A.dtype)
-    y = A
-    with np.errstate(all="ignore"):
-        for i in range(N - dnew, 0, -1):
-            y = np.reshape(y, (sz ** (dnew + i - 1), sz), order="F").dot(v)
-    want = np.asarray(y).reshape(()) if dnew == 0 else np.asarray(y)
-    return _same_values(impl["ok"], want, A.dtype == np.float32)
